@@ -15,6 +15,7 @@ theorem hostSpec : HostSpec host where
     have : isBase (cls "BaseException") = true := rfl
     rw [this]; rfl⟩
   nameErr := ⟨cls "PteraNameError", rfl⟩
+  pyNameErr := ⟨cls "NameError", rfl⟩
   frame := ⟨.obj "frame" [], rfl⟩
   globals := ⟨globalsObj, rfl, fun _ _ => rfl, fun _ _ => rfl⟩
   truthyBool := fun _ _ => rfl
